@@ -1281,8 +1281,8 @@ func (e *Exec) merge(a, b *State) *State {
 				other = iv("0")
 			case strings.HasPrefix(s, "sent:"), strings.HasPrefix(s, "recvd:"):
 				other = iv("0") // nothing sent / received on the other path
-			case strings.HasPrefix(s, "closed:"):
-				other = bv(tFalse) // not closed on the other path
+			case strings.HasPrefix(s, "closed:"), strings.HasPrefix(s, "spawned:"):
+				other = bv(tFalse) // not closed / not spawned on the other path
 			default:
 				out.vars[s] = v // argument/result of a call that did not happen on the other path: arbitrary there
 				continue
@@ -1408,5 +1408,5 @@ func isTimeType(t types.Type) bool {
 func isEventKey(s string) bool {
 	return strings.HasPrefix(s, "called:") || strings.HasPrefix(s, "ncalls:") || strings.HasPrefix(s, "ret:") || strings.HasPrefix(s, "arg:") ||
 		strings.HasPrefix(s, "sent:") || strings.HasPrefix(s, "closed:") || strings.HasPrefix(s, "recvd:") ||
-		strings.HasPrefix(s, "recvval:") || strings.HasPrefix(s, "sentval:")
+		strings.HasPrefix(s, "recvval:") || strings.HasPrefix(s, "sentval:") || strings.HasPrefix(s, "spawned:")
 }
